@@ -73,16 +73,27 @@ def run(env, rep):
             rep.ok("C08.R1", "row:%s" % "|".join(str(x) for x in k), "format %s" % sorted(str(x) for x in v), nontrivial=False)
     # get_header_format itself must not be entered when the previous header is droppable (checked above by the constant Full);
     # ------------------------------------------------------------------ R2 provenance
-    ok_h, ok_n = True, 0
+    ok_h, ok_n, why_h = True, 0, []
     for p in m.add_chunk_paths:
+        if not p or p[-1][0] != "end" or p[-1][1] not in ("ok", "ret", "ok|err"):
+            continue
+        rets = [t for t in p if t[0] == "returns"]
+        if rets and not rets[-1][1].startswith("Ok("):
+            continue
         ins = [t for t in p if t[0] == "mut" and t[1] == "insert" and t[2] == "previous_headers"]
-        for t in ins:
-            ok_n += 1
-            fields = t[3][1].rstrip(")").split(", ")
-            if not fields[-1].startswith("load(can_be_dropped"):
-                ok_h = False
-    rep.check("C08.R2", "stored-flag-provenance", ok_h and ok_n >= 4, "the remembered header's can_be_dropped is add_chunk's argument (%d paths)" % ok_n,
-              "the header stored in previous_headers does not carry the caller's can_be_dropped flag on every path", m.b["add_chunk"].span)
+        other = [t for t in p if t[0] == "mut" and t[2] == "previous_headers" and t[1] in ("get_mut", "entry", "remove", "clear")]
+        ok_n += 1
+        if len(ins) != 1:
+            ok_h = False
+            why_h.append("a path that emits a chunk %s" % ("does not replace the remembered header of the chunk stream (it is %s): the droppable flag of the packet just written is not remembered" % (
+                "changed through " + ", ".join(sorted({t[1] for t in other})) if other else "left as it was") if not ins else "stores the remembered header %d times" % len(ins)))
+            continue
+        fields = ins[0][3][1].rstrip(")").split(", ")
+        if not fields[-1].startswith("load(can_be_dropped"):
+            ok_h = False
+            why_h.append("the remembered header's can_be_dropped is %s" % fields[-1][:60])
+    rep.check("C08.R2", "stored-flag-provenance", ok_h and ok_n >= 4, "every path that emits a chunk remembers its header with the caller's can_be_dropped flag (%d paths)" % ok_n,
+              "the header remembered per chunk stream does not carry the caller's can_be_dropped flag on every path: %s" % "; ".join(sorted(set(why_h))), m.b["add_chunk"].span)
     se = m.b["serialize"]
     tr = [chunk.sig(p) for p in grammar.ok_paths(grammar.trace(env, se.key, "w"))]
     okp, np_, okarg, okbuf = True, 0, True, True
